@@ -811,9 +811,14 @@ def gen_tree(rng, nn=None):
 def gen_ring(rng):
     """cyclic internetwork without branching (so that the number of copies stays linear in the
     hop count): a ring of 3..4 networks joined by two-port routers, or two parallel two-port
-    routers between the same two networks"""
-    k = rng.choice([2, 3, 4])
-    nets = rng.sample(range(1, 30), k)
+    routers between the same two networks; optionally with a TAIL network attached to the ring by
+    one more router.  Only traffic from the tail really circles until the hop count is spent: a
+    packet that comes back to a router adjacent to its source network is dropped there by the
+    "path error (1)" check (SADR names a directly connected network)."""
+    k = rng.choice([2, 3, 3, 4])
+    tail = rng.random() < 0.6
+    nets = rng.sample(range(1, 30), k + (1 if tail else 0))
+    ring = nets[:k]
     used = {n: set() for n in nets}
 
     def newmac(net):
@@ -825,18 +830,24 @@ def gen_ring(rng):
     routers = []
     if k == 2:
         for _ in range(2):
-            routers.append([(nets[0], newmac(nets[0])), (nets[1], newmac(nets[1]))])
+            routers.append([(ring[0], newmac(ring[0])), (ring[1], newmac(ring[1]))])
     else:
         for i in range(k):
-            a, b = nets[i], nets[(i + 1) % k]
+            a, b = ring[i], ring[(i + 1) % k]
             ports = [(a, newmac(a)), (b, newmac(b))]
             rng.shuffle(ports)
             routers.append(ports)
     stations = []
+    if tail:
+        t = nets[k]
+        ports = [(t, newmac(t)), (ring[0], newmac(ring[0]))]
+        rng.shuffle(ports)
+        routers.append(ports)
+        stations.append((t, newmac(t), rng.choice(["known", "unknown"])))      # station 0: on the tail
     for n in nets:
         for _ in range(rng.randrange(1, 3)):
             stations.append((n, newmac(n), rng.choice(["known", "unknown"])))
-    return {"nets": nets, "routers": routers, "stations": stations}
+    return {"nets": nets, "routers": routers, "stations": stations, "tail": tail}
 
 
 class World:
@@ -1306,7 +1317,8 @@ def run_cycle_scenario(ctx, vt, sc):
                     if o["aid"] == ev["aid"]:
                         ctx.fail("no-echo", case, "router %d forwarded back onto the arrival adapter" % idx,
                                  clause="no_echo")
-    ctx.count("e2e-cycle", (dest[0], len(spec["nets"]), nrouters, min(data_frames // 100, 20)))
+    ctx.count("e2e-cycle", (dest[0], len(spec["nets"]), nrouters, min(data_frames // 50, 40)))
+    ctx.count("e2e-cycle-frames", n=data_frames)
     ctx.extra["max_cycle_frames"] = max(ctx.extra.get("max_cycle_frames", 0), data_frames)
     global_compare(ctx, world, spec, sidx, dest, got, topo, "cycle")
     compare_logs(ctx, "e2e-node", world.nodes, case)
@@ -1327,7 +1339,8 @@ def gen_cycle_scenario(ctx, rng):
     spent.  (Every router has a route on every port: Who-Is-Router discovery, which carries
     no hop count, is never triggered - see notes/C06.md.)"""
     spec = gen_ring(rng)
-    sidx = rng.randrange(len(spec["stations"]))
+    tail = spec.pop("tail")
+    sidx = 0 if (tail and rng.random() < 0.8) else rng.randrange(len(spec["stations"]))
     snet = spec["stations"][sidx][0]
     tables = empty_tables(spec)
     if rng.random() < 0.4:
@@ -1343,7 +1356,8 @@ def gen_cycle_scenario(ctx, rng):
                 continue
             for pi, (n, m) in enumerate(ports):
                 peers = [mm for (rj, pj, mm) in on[n] if rj != ri]
-                tables[("r", ri)].setdefault(pi, []).append((target, rng.choice(peers)))
+                if peers:
+                    tables[("r", ri)].setdefault(pi, []).append((target, rng.choice(peers)))
         peers = [mm for (rj, pj, mm) in on[snet]]
         tables[("s", sidx)] = {0: [(target, rng.choice(peers))]}
     return {"spec": spec, "send": [sidx, dest], "caches": tables,
@@ -1445,10 +1459,11 @@ def run(ctx):
         lock = [{"shard": i, "n": 60} for i in range(16)]
         e2e = [{"shard": i, "trees": 6, "cycles": 3, "nsends": 5} for i in range(16)]
     else:
-        lock = [{"shard": i, "n": 700} for i in range(16)]
-        # every (source, kind, destination) on 2 trees per shard (capped), a large sample on 24 more
-        e2e = [{"shard": i, "trees": 2, "cycles": 0, "exhaustive": True} for i in range(32)]
-        e2e += [{"shard": 100 + i, "trees": 24, "cycles": 10, "nsends": 12} for i in range(32)]
+        lock = [{"shard": i, "n": 2000} for i in range(16)]
+        # every (source, kind, destination) on 4 trees per shard (capped at 250 sends each),
+        # a sample of 12 sends on 100 more; 30 cyclic scenarios per shard
+        e2e = [{"shard": i, "trees": 4, "cycles": 0, "exhaustive": True} for i in range(32)]
+        e2e += [{"shard": 100 + i, "trees": 100, "cycles": 30, "nsends": 12} for i in range(32)]
     core.run_shards(ctx, "harness.c06", "shard_lockstep", lock)
     core.run_shards(ctx, "harness.c06", "shard_e2e", e2e)
 
